@@ -32,6 +32,12 @@ CLAIMED = {
  "C09": ("Lean theorems over the key loop with an ideal HPKE: if every other key yields 'continue', any list containing the target at any position, with repetitions, behaves exactly like the target alone (C09_superset); a valid key the hello was not sealed to always continues, whatever its id/suites/name (first hello), and only the key that opened the first hello is tried on a retry; with no seal under any held key, never accepted (C09_converse). Tie: EXHAUSTIVE ordered key lists of length 1..3 (quick) / 1..4 (thorough) from a 6-key pool with colliding ids, first and retried hellos.",
          "Lean kernel + propext/Quot.sound/Classical.choice; hand-written model tied to the Go code by the differential correspondence check; ideal HPKE; valid keys = private key parses for its KEM.",
          "Lean 4 proof (list induction over the key loop, ideal HPKE) + exhaustive key-list enumeration as correspondence", "5/C09"),
+ "C12": ("Lean theorems over a total model of the decoder: name decoding stops by itself within 511 iterations whatever the pointers (any fuel >= 511 gives the same answer: C12_name_bounded), decoded names have at most 255 octets, record data has the Go dynamic type implied by the record type (C12_types), a decoded message with q questions and r records needs at least 12+5q+11r bytes so lying counts cannot amplify work (C12_cost), and the resolver's type assertions cannot fail on any decoded message (C12_resolver_safe). Wall-clock and heap are observed in a child process with a watchdog; each decodable message is also driven through the real Resolver.Resolve via a local DoH server.",
+         "Lean kernel + propext/Quot.sound/Classical.choice; hand-written model tied to the Go code by the differential correspondence check; LOC records (floating point) are opaque in the model; time and memory are observed, the theorem bounds loop iterations.",
+         "Lean 4 proof (fuel-independence / measure argument, typed decoder) + differential correspondence on adversarial messages", "5/C12"),
+ "C13": ("PARTIAL proof. Lean theorems: the name codec round trip for well-formed labels at any position of any message (C13_name_roundtrip), the header flag-word round trip for all field values in range, the AddPadding length law (encoded length % 128 = 0 whenever AddPadding and the encoder succeed: C13_padding) and the extended-RCODE law. The whole-message round trip for every encoder record type and the two-way agreement with golang.org/x/net/dns/dnsmessage (incl. compression produced by the other side, MX/SOA/TXT/SRV) are carried by the campaign: exhaustive over all 8192 header combinations and all question-name lengths 0..253, names of 0..127 labels, random HTTPS parameter sets and EDNS options.",
+         "Lean kernel + propext/Quot.sound/Classical.choice; hand-written model tied to the Go code by the differential correspondence check; whole-message round trip and agreement with the independent codec are checked on generated messages, not proved.",
+         "Lean 4 proof (name codec round trip, padding arithmetic) + differential correspondence incl. an independent DNS codec", "5/C13"),
  "C11": ("Lean 4 theorems over the model of config.go (round trip with arbitrary trailing bytes, list round trip, "
          "exact definedness condition of Bytes, rejection of every strict prefix, no over-read, well-formedness against an "
          "independent transcription of the draft section 4 grammar), for all ids / names / suites / keys; the model is tied "
